@@ -199,13 +199,19 @@ func ruleNoGoConversion(c *core.Ctx, rule string) {
 	}
 }
 
+// withExamples adds the overlaid package of positive and negative examples
+// (core.WitnessDirName) to the packages a rule scans.
+func withExamples(rels []string) []string {
+	return append(append([]string{}, rels...), core.WitnessDirName)
+}
+
 // ruleIndexResultChecked: the result of an Index-style search (-1 when nothing
 // is found) is not used as a slice bound or in arithmetic feeding one before it
 // was tested: input[pos : pos+IndexByte(...)] panics for the input that does
 // not contain the byte.
 func ruleIndexResultChecked(c *core.Ctx, rule string, rels ...string) {
 	n := 0
-	for _, rel := range rels {
+	for _, rel := range withExamples(rels) {
 		for _, fn := range srcFuncsOfPkg(c, rel) {
 			for i, call := range core.Calls(fn) {
 				cv, ok := call.(*ssa.Call)
@@ -291,7 +297,7 @@ func ruleIndexResultChecked(c *core.Ctx, rule string, rels ...string) {
 // the packages of rels.
 func ruleSharedMapWritesExclusive(c *core.Ctx, lc *core.LockCache, rule string, rels ...string) {
 	n := 0
-	for _, rel := range rels {
+	for _, rel := range withExamples(rels) {
 		for _, fn := range srcFuncsOfPkg(c, rel) {
 			lf := lc.Get(fn)
 			if lf.Ops == 0 {
@@ -726,7 +732,7 @@ func ruleReaderWidthTables(c *core.Ctx, rule string) {
 // silently, so the prefix announces more bytes than are written.
 func ruleCopyFits(c *core.Ctx, rule string, rels ...string) {
 	n := 0
-	for _, rel := range rels {
+	for _, rel := range withExamples(rels) {
 		for _, fn := range srcFuncsOfPkg(c, rel) {
 			for i, call := range core.Calls(fn) {
 				cv, ok := call.(*ssa.Call)
@@ -899,7 +905,7 @@ func ruleInferredGuards(c *core.Ctx, lc *core.LockCache, el *entryLocks, rule st
 // one object's answer to another.
 func rulePackageKeepsNoCache(c *core.Ctx, rule, rel string) {
 	n := 0
-	for _, fn := range srcFuncsOfPkg(c, rel) {
+	for _, fn := range append(srcFuncsOfPkg(c, rel), srcFuncsOfPkg(c, core.WitnessDirName)...) {
 		if fn.Name() == "init" && fn.Parent() == nil {
 			continue
 		}
